@@ -144,57 +144,110 @@ def snake(name):
     return re.sub(r"(?<!^)([A-Z])", r"_\1", name).lower()
 
 
-def oracle_and_diff(ctx, cases, results, model, source):
-    """cases[i] = {name, segs, values, nonmatching, kind}; results/model aligned"""
-    for c, r, mo in zip(cases, results, model):
+RECEIVERS = ["sync-class", "sync-instance", "async-class", "async-instance"]
+COMMON_SEGS = {
+    "billing_account": [["lit", "billingAccounts/"], ["var", "billing_account", False]],
+    "folder": [["lit", "folders/"], ["var", "folder", False]],
+    "organization": [["lit", "organizations/"], ["var", "organization", False]],
+    "project": [["lit", "projects/"], ["var", "project", False]],
+    "location": [["lit", "projects/"], ["var", "project", False], ["lit", "/locations/"], ["var", "location", False]],
+}
+
+
+def common_cases(r):
+    """the five common resources as cases of their own (helpers `common_<x>_path` / `parse_common_<x>_path`)"""
+    out = []
+    for rname in COMMON:
+        segs = COMMON_SEGS[rname]
+        out.append({"helper": "common_" + rname, "segs": segs, "values": gen_values(r, segs),
+                    "nonmatching": nonmatching_for(r, segs), "kind": "common"})
+    return out
+
+
+def observe_helpers(root, cases):
+    """dir() of both client classes + every helper of `cases` observed on the sync/async client class and instance,
+    positional and keyword arguments (libhost_c19.op_c19_helpers)"""
+    helpers = [{"name": c["helper"], "args": [s[1] for s in c["segs"] if s[0] == "var"], "values": c["values"],
+                "nonmatching": c.get("nonmatching", [])} for c in cases]
+    return libhost.run(root, [{"op": "dir", "module": "acme.lib_v1", "attr": "LibraryClient"},
+                              {"op": "dir", "module": "acme.lib_v1", "attr": "LibraryAsyncClient"},
+                              {"op": "c19_helpers", "module": "acme.lib_v1", "client": "LibraryClient",
+                               "async_client": "LibraryAsyncClient", "helpers": helpers}])
+
+
+def judge_helpers(ctx, cases, obs, payload_of):
+    """the oracle (model-independent restatement of the property) applied to EVERY way a caller reaches a helper:
+    sync class, sync instance, async class, async instance x positional / keyword arguments.  Returns, per case, the
+    sync-class positional observation (what the model is compared with)."""
+    base = []
+    for rc in RECEIVERS:
+        if isinstance(obs.get(rc), dict):      # the client could not be constructed
+            ctx.fail(f"client-construction:{rc}", f"{rc}: {obs[rc]}", payload_of(cases[0]) if cases else {})
+    for k, c in enumerate(cases):
         segs, vals = c["segs"], c["values"]
         args = [s[1] for s in segs if s[0] == "var"]
         key = classify(segs, vals)
-        payload = {"segs": segs, "values": vals, "pattern": render(segs), "kind": c.get("kind", "message")}
-        ctx.count("variables", len(args))
+        expect_path = "".join(s[1] if s[0] == "lit" else vals[args.index(s[1])] for s in segs)
+        want = dict(zip(args, vals)) if render(segs) != "*" else {}
+        for rc in RECEIVERS:
+            if not isinstance(obs.get(rc), list):
+                continue
+            suffix = "" if rc == "sync-class" else ":" + rc
+            for style in ("positional", "keyword"):
+                o = obs[rc][k][style]
+                how = f"{rc}, {style} arguments: {c['helper']}_path"
+                pl = {**payload_of(c), "receiver": rc, "arguments": style}
+                b, pr = o["built"], o["parsed"]
+                if "raised" in b:
+                    if b["raised"] != "AttributeError" or o["parsed"] is not None:     # a MISSING helper is reported once, from dir() of the class
+                        ctx.fail(key or "build-raised" + suffix, f"{how} raised {b['raised']}: {b.get('msg', '')[:120]}", pl)
+                    break
+                if b["value"] != expect_path:
+                    ctx.fail(key or "build-wrong" + suffix, f"{how} built {b['value']!r} != pattern instantiated {expect_path!r}", pl)
+                    break
+                if pr is None or "raised" in pr:
+                    ctx.fail(key or "parse-raised" + suffix, f"{how}: parse_{c['helper']}_path({expect_path!r}) raised {pr}", {**pl, "path": expect_path})
+                    break
+                if pr["value"] != want:
+                    ctx.fail(key or "roundtrip" + suffix, f"{how}: parse(build({vals})) = {pr['value']} for pattern {render(segs)!r}",
+                             {**pl, "path": expect_path, "observed": pr["value"]})
+                    break
+                bad = [(sx, q) for sx, q in zip(c.get("nonmatching", []), o["nonmatching"]) if q.get("value") != {}]
+                if bad:
+                    ctx.fail(key or "nonmatch-not-empty" + suffix, f"{how}: parse of non-matching {bad[0][0]!r} gave {bad[0][1]}", {**pl, "path": bad[0][0]})
+                    break
+        sc = obs["sync-class"][k]["positional"] if isinstance(obs.get("sync-class"), list) else None
+        base.append(sc)
+    return base
+
+
+def oracle_and_diff(ctx, cases, obs, model, source):
+    """cases[i] = {name, helper, segs, values, nonmatching, kind}; obs = result of op c19_helpers; model aligned with cases"""
+    def payload_of(c):
+        return {"segs": c["segs"], "values": c["values"], "pattern": render(c["segs"]), "kind": c.get("kind", "message")}
+    base = judge_helpers(ctx, cases, obs, payload_of)
+    for c, sc, mo in zip(cases, base, model):
+        segs = c["segs"]
+        payload = payload_of(c)
+        ctx.count("variables", len([s for s in segs if s[0] == "var"]))
         ctx.count("shape", "wildcard" if render(segs) == "*" else ("multi-var-segment" if any(
             a[0] == "var" and b[0] == "lit" and b[1] and b[1][0] != "/" for a, b in zip(segs, segs[1:])) else "plain"))
-        # ---- oracle (model-independent restatement of the property)
-        built = r["built"]
-        if "raised" in built:
-            ctx.fail(key or "build-raised", f"{c['name']}_path raised {built['raised']}", payload)
+        # ---- correspondence with the Lean model (sync class, positional: the other seven observations are held to the
+        # same oracle above, so they equal this one whenever the oracle is silent)
+        if sc is None or "value" not in sc["built"] or sc["parsed"] is None or "value" not in sc["parsed"]:
             continue
-        path = built["value"]
-        expect_path = "".join(s[1] if s[0] == "lit" else vals[args.index(s[1])] for s in segs)
-        if path != expect_path:
-            ctx.fail(key or "build-wrong", f"built path {path!r} != pattern instantiated {expect_path!r}", payload)
-        parsed = r["parsed"]
-        if "raised" in parsed:
-            ctx.fail(key or "parse-raised", f"parse_{c['name']}_path raised {parsed['raised']}", payload)
-            continue
-        want = dict(zip(args, vals))
-        if parsed["value"] != want:
-            ctx.fail(key or "roundtrip", f"parse(build({vals})) = {parsed['value']} for pattern {render(segs)!r}",
-                     {**payload, "path": path, "observed": parsed["value"]})
-        for s, pr in zip(c["nonmatching"], r["nonmatching"]):
-            if pr.get("value") != {}:
-                ctx.fail(key or "nonmatch-not-empty", f"parse of non-matching {s!r} gave {pr}", {**payload, "path": s})
-        # the async client offers the same helpers (the property says "the client": both emitted clients)
-        ab, ap = r.get("async_built"), r.get("async_parsed")
-        if ab is not None:
-            if ab.get("value") != expect_path:
-                ctx.fail(key or "build-wrong", f"LibraryAsyncClient.{snake(c['name'])}_path gave {ab} != pattern instantiated {expect_path!r}",
-                         {**payload, "client": "async"})
-            elif ap is not None and ap.get("value") != want:
-                ctx.fail(key or "roundtrip", f"async client: parse(build({vals})) = {ap} for pattern {render(segs)!r}",
-                         {**payload, "path": expect_path, "observed": ap.get("value", ap), "client": "async"})
-        # ---- correspondence with the Lean model
         if mo.get("unsupported") or mo.get("regex") is None and render(segs) != "*":
             ctx.unsupported += 1
             continue
         ctx.traces += 1
+        path, parsed = sc["built"]["value"], sc["parsed"]["value"]
         m_built = mo["built"]
         m_parsed = None if mo["parsed_built"] is None else dict(mo["parsed_built"])
-        if m_built != path or (m_parsed is not None and m_parsed != parsed["value"]):
-            ctx.disagree("T3:c19.path-helpers", f"model built/parsed {m_built!r}/{m_parsed} vs impl {path!r}/{parsed['value']}", payload)
-        for s, pr, mp in zip(c["nonmatching"], r["nonmatching"], mo["parsed"]):
+        if m_built != path or (m_parsed is not None and m_parsed != parsed):
+            ctx.disagree("T3:c19.path-helpers", f"model built/parsed {m_built!r}/{m_parsed} vs impl {path!r}/{parsed}", payload)
+        for sx, pr, mp in zip(c["nonmatching"], sc["nonmatching"], mo["parsed"]):
             if mp is not None and dict(mp) != pr.get("value"):
-                ctx.disagree("T3:c19.nonmatching", f"model {dict(mp)} vs impl {pr} on {s!r}", {**payload, "path": s})
+                ctx.disagree("T3:c19.nonmatching", f"model {dict(mp)} vs impl {pr} on {sx!r}", {**payload, "path": sx})
 
 
 def run_batch(ctx, batch, label):
@@ -226,57 +279,28 @@ def run_batch(ctx, batch, label):
             diff = [k for k in impl if impl[k] != mod[k]]
             ctx.disagree("T2:c19.path_regex_str", f"{diff} differ for pattern {render(c['segs'])!r}: impl regex {msg.path_regex_str!r}",
                          {"segs": c["segs"], "values": c["values"], "pattern": render(c["segs"])})
-    # ---- T3: emitted client
+    # ---- T3: emitted clients
     res = genrun.generate_inproc(req)
     root = genrun.materialise(res)
     try:
-        ops = [{"op": "dir", "module": "acme.lib_v1", "attr": "LibraryClient"}]
         for c in batch:
-            sn = snake(c["name"])
-            ops.append({"op": "call", "module": "acme.lib_v1", "attr": f"LibraryClient.{sn}_path", "args": c["values"]})
-        for c in batch:
-            ops.append({"op": "call", "module": "acme.lib_v1", "attr": f"LibraryAsyncClient.{snake(c['name'])}_path", "args": c["values"]})
-        out = libhost.run(root, ops)
+            c["helper"] = snake(c["name"])
+        commons = common_cases(ctx.rng("common-values", label))
+        cmodel = ctx.driver.ask([{"op": "c19", "segs": c["segs"], "values": c["values"], "paths": c["nonmatching"]} for c in commons])
+        out = observe_helpers(root, batch + commons)
         if "child_error" in out[0]:
             ctx.fail("import-failed", "emitted library failed: " + out[0]["child_error"][-300:], {"patterns": patterns})
             return
-        names = set(out[0].get("names", []))
-        for rname in COMMON:
-            for fn in (f"common_{rname}_path", f"parse_common_{rname}_path"):
-                if fn not in names:
-                    ctx.fail("helper-missing", f"{fn} missing from client", {"patterns": patterns})
-        for c in batch:
-            sn = snake(c["name"])
-            for fn in (f"{sn}_path", f"parse_{sn}_path"):
-                if fn not in names:
-                    ctx.fail("helper-missing", f"{fn} missing from client", {"pattern": render(c["segs"]), "kind": c.get("kind")})
-        nb = len(batch)
-        a_built = out[1 + nb:1 + 2 * nb]
-        ops2, idx = [], []
-        for c, b in zip(batch, out[1:1 + nb]):
-            sn = snake(c["name"])
-            start = len(ops2)
-            if "value" in b:
-                ops2.append({"op": "call", "module": "acme.lib_v1", "attr": f"LibraryClient.parse_{sn}_path", "args": [b["value"]]})
-            for s in c["nonmatching"]:
-                ops2.append({"op": "call", "module": "acme.lib_v1", "attr": f"LibraryClient.parse_{sn}_path", "args": [s]})
-            idx.append(start)
-        a_idx = {}
-        for k, (c, b) in enumerate(zip(batch, a_built)):
-            if "value" in b:
-                a_idx[k] = len(ops2)
-                ops2.append({"op": "call", "module": "acme.lib_v1", "attr": f"LibraryAsyncClient.parse_{snake(c['name'])}_path", "args": [b["value"]]})
-        out2 = libhost.run(root, ops2)
-        results = []
-        for n_, (c, b, st) in enumerate(zip(batch, out[1:1 + nb], idx)):
-            k = st
-            parsed = {"raised": "n/a"}
-            if "value" in b:
-                parsed = out2[k]; k += 1
-            results.append({"built": b, "parsed": parsed, "nonmatching": out2[k:k + len(c["nonmatching"])],
-                            "async_built": a_built[n_] if n_ < len(a_built) else None,
-                            "async_parsed": out2[a_idx[n_]] if n_ in a_idx else None})
-        oracle_and_diff(ctx, batch, results, model, label)
+        if "op_error" in out[2]:
+            ctx.fail("harness:c19_helpers", str(out[2])[:300], {"patterns": patterns})
+            return
+        for cl, o in (("LibraryClient", out[0]), ("LibraryAsyncClient", out[1])):
+            names = set(o.get("names", []))
+            for c in batch + commons:
+                for fn in (f"{c['helper']}_path", f"parse_{c['helper']}_path"):
+                    if fn not in names:
+                        ctx.fail("helper-missing", f"{cl}: {fn} missing", {"pattern": render(c["segs"]), "kind": c.get("kind"), "client": cl})
+        oracle_and_diff(ctx, batch + commons, out[2], model + cmodel, label)
     finally:
         genrun.cleanup(root)
 
@@ -571,41 +595,26 @@ def run_vis(ctx, spec, label):
         return
     root = genrun.materialise(res)
     try:
-        want = [x for x in spec["resources"] if x["via"] != "none"]
-        ops = [{"op": "dir", "module": "acme.lib_v1", "attr": "LibraryClient"},
-               {"op": "dir", "module": "acme.lib_v1", "attr": "LibraryAsyncClient"}]
-        for cl in ("LibraryClient", "LibraryAsyncClient"):
-            for x in want:
-                ops.append({"op": "call", "module": "acme.lib_v1", "attr": f"{cl}.{snake(x['name'])}_path", "args": x["values"]})
-        out = libhost.run(root, ops)
+        want = [{**x, "helper": snake(x["name"]), "nonmatching": nonmatching_for(None, x["segs"]), "kind": "vis"}
+                for x in spec["resources"] if x["via"] != "none"]
+        commons = common_cases(ctx.rng("common-values", label))
+        out = observe_helpers(root, want + commons)
         if "child_error" in out[0]:
             ctx.fail("import-failed", "emitted library failed: " + out[0]["child_error"][-300:], payload)
             return
-        built = out[2:]
-        ops2 = []
-        for i, cl in enumerate(("LibraryClient", "LibraryAsyncClient")):
-            for j, x in enumerate(want):
-                b = built[i * len(want) + j]
-                ops2.append({"op": "call", "module": "acme.lib_v1", "attr": f"{cl}.parse_{snake(x['name'])}_path",
-                             "args": [b.get("value", "")]})
-        out2 = libhost.run(root, ops2) if ops2 else []
+        if "op_error" in out[2]:
+            ctx.fail("harness:c19_helpers", str(out[2])[:300], payload)
+            return
+        judge_helpers(ctx, want + commons, out[2], lambda x: {**payload, "resource": x.get("name", x["helper"])})
         for i, cl in enumerate(("LibraryClient", "LibraryAsyncClient")):
             names = set(out[i].get("names", []))
-            for j, x in enumerate(want):
-                sn = snake(x["name"])
-                pl = {**payload, "resource": x["name"], "client": cl}
+            for x in want:
+                sn = x["helper"]
                 missing = [fn for fn in (f"{sn}_path", f"parse_{sn}_path") if fn not in names]
                 if missing:
                     ctx.fail("helper-missing",
-                             f"{cl}: {missing} missing for resource {x['type']} ({render(x['segs'])}; {x['home']}, {x['via']} from {x['side']} at depth {x['depth']})", pl)
-                    continue
-                b, pr = built[i * len(want) + j], out2[i * len(want) + j]
-                args = [s[1] for s in x["segs"] if s[0] == "var"]
-                expect_path = "".join(s[1] if s[0] == "lit" else x["values"][args.index(s[1])] for s in x["segs"])
-                if b.get("value") != expect_path:
-                    ctx.fail("build-wrong" if "value" in b else "build-raised", f"{cl}.{sn}_path{tuple(x['values'])} gave {b}, pattern instantiated is {expect_path!r}", pl)
-                elif pr.get("value") != dict(zip(args, x["values"])):
-                    ctx.fail("roundtrip" if "value" in pr else "parse-raised", f"{cl}: parse(build({x['values']})) = {pr} for {render(x['segs'])!r}", pl)
+                             f"{cl}: {missing} missing for resource {x['type']} ({render(x['segs'])}; {x['home']}, {x['via']} from {x['side']} at depth {x['depth']})",
+                             {**payload, "resource": x["name"], "client": cl})
             for rname in COMMON:
                 for fn in (f"common_{rname}_path", f"parse_common_{rname}_path"):
                     if fn not in names:
